@@ -234,7 +234,7 @@ def apply_inline(line, site):
 
 LINE_EDITS = ["blank-before", "semicolon-comment-before", "block-comment-before", "multiline-comment-before", "indent-spaces", "indent-tab",
               "trailing-spaces", "eol-comment", "star-comment-before", "doc-comment-before", "tricky-comment-before", "eol-tricky-comment", "opener-in-semicolon-comment-before",
-              "eol-opener-comment", "slash-first-comment-before", "banner-comment-before", "empty-comment-before"]
+              "eol-opener-comment", "slash-first-comment-before", "banner-comment-before", "empty-comment-before", "backslash-comment-before", "eol-backslash-comment"]
 COMMENT_TEXT = {
     "star-comment-before": "/***/",
     "doc-comment-before": "/** documentation **/",
@@ -242,6 +242,7 @@ COMMENT_TEXT = {
     "slash-first-comment-before": "/*/ a slash right after the opener */",
     "banner-comment-before": "/*//////// banner ////////*/",
     "empty-comment-before": "/**/",
+    "backslash-comment-before": "; a comment that ends with a backslash: C:\\tools\\",
     "opener-in-semicolon-comment-before": "; graphics come from gfx/*.bin (a block-comment opener inside a line comment)",
 }
 
@@ -258,8 +259,8 @@ def all_edits(lines):
         if not line.strip():
             continue
         for kind in LINE_EDITS:
-            if kind in ("indent-spaces", "indent-tab", "trailing-spaces", "eol-comment", "eol-tricky-comment", "eol-opener-comment"):
-                col = 10 ** 6 if kind in ("trailing-spaces", "eol-comment", "eol-tricky-comment", "eol-opener-comment") else -2
+            if kind in ("indent-spaces", "indent-tab", "trailing-spaces", "eol-comment", "eol-tricky-comment", "eol-opener-comment", "eol-backslash-comment"):
+                col = 10 ** 6 if kind in ("trailing-spaces", "eol-comment", "eol-tricky-comment", "eol-opener-comment", "eol-backslash-comment") else -2
             else:
                 col = -1
             edits.append((i, col, kind, None))
@@ -292,6 +293,8 @@ def apply_edits(lines, edits):
             out.append("\0NOFINALNEWLINE")
         elif kind == "eol-comment":
             out[i] = out[i] + " ; trailing comment"
+        elif kind == "eol-backslash-comment":
+            out[i] = out[i] + " ; see C:\\data\\"
         elif kind == "eol-opener-comment":
             out[i] = out[i] + " ; see data/*.inc"
         elif kind == "eol-tricky-comment":
